@@ -145,3 +145,6 @@ Ltac unfold_rot :=
        basis3_from_quaternion basis3_one basis3_mul basis3_rotate_vector basis3_rotate_point basis3_invert
        basis3_from_axis_angle basis3_from_angle_x basis3_from_angle_y basis3_from_angle_z
        URad UDeg to_rad of_rad full_turn fst snd] in *.
+
+From CG Require Import Model.Euler.
+Ltac unfold_euler := cbv [m3_of_euler m4_of_euler basis3_of_euler quat_of_euler euler_of_quat euler_list ex ey ez] in *.
